@@ -11,3 +11,6 @@ open LhasaV.Props.C07
 #print axioms check_iff_all
 #print axioms extract_iff_all
 #print axioms truncation_bad_all
+#print axioms exit_status_iff
+#print axioms handled_members_selected
+#print axioms progress_bar_width
